@@ -5,6 +5,14 @@ HERE = os.path.dirname(os.path.abspath(__file__))
 BASELINE = "cd /repo && /venv/bin/python -m pytest -ra -q -p no:cacheprovider --timeout=900 --continue-on-collection-errors"
 
 CLAIMED = {
+    'C05': dict(
+        design='4.5',
+        text='Kernel only. Deductive proof (arrays of any length) of UniqueMask.evalf (mask[0] true, mask[i] <=> a[i] != a[i-1]) and UniqueInverse.evalf (for a permutation sorter: '
+             'inverse[sorter[k]] = cumsum(mask)[k] - 1, stepwise). numeric.compress_indices is covered only by a BOUNDED stand-in (exhaustive native enumeration, length <= 6, all index '
+             'vectors of len <= 6 over [-1, length]): equals searchsorted, monotone row pointer from 0 to nnz, ValueError exactly for invalid input; labelled bounded, not counted as proved.',
+        note='Outside: the structural recursion _assparse over the node classes and "scatter of the listed values reproduces the dense array" (needs n-dimensional array semantics); '
+             'assparse ravel/unravel loops not built. Trusted: numpy externals (slice stores, not_equal out=, cumsum recurrence, injective fancy store).',
+        technique='contract-based deductive verification (ast->z3) for two functions; bounded exhaustive enumeration stand-in for one'),
     'C17': dict(
         design='4.17',
         text='Deductive proof, SHA-1 idealised as injective, of the encoding kernel of types.nutils_hash: the real function is run twice on symbolic values of one kind and the two outer SHA-1 '
@@ -91,7 +99,7 @@ NOT_APPLICABLE = {
     'C02': 'whole-DAG faithful translation into generated numpy programs: no function-level postcondition carries it; would need a denotational semantics of ~150 node classes and of the generated code (DESIGN 4.2)',
     'C03': 'history/non-interference property of a program that exists only as a generated string; no per-function contract expresses it (DESIGN 4.3)',
 }
-PENDING = ['C04', 'C05', 'C07', 'C08', 'C10', 'C16', 'C18', 'C19', 'C20']
+PENDING = ['C04', 'C07', 'C08', 'C10', 'C16', 'C18', 'C19', 'C20']
 
 
 def main():
